@@ -89,10 +89,11 @@ def _indent_of(line):
 
 class FnSpec:
     def __init__(self, name, file, impl=None, nth=0, ret=None, requires=(), ensures=(), decreases=None,
-                 loops=None, proofs=(), rules=(), attrs=(), sig_sub=(), self_ty=None, opens_impl=None, body_sub=(), label=None, twin=None):
+                 loops=None, proofs=(), rules=(), attrs=(), sig_sub=(), self_ty=None, opens_impl=None, body_sub=(), label=None, twin=None, pre=None):
         self.name = name
         self.label = label or name   # unique within the unit: used in obligation names and tags
         self.twin = twin             # dict(sig=str, subs=[(regex, repl)]): emit the rule-processed body a second time as a spec function
+        self.pre = pre               # callable(text) -> (text, [(rule id, n)]): block-level abstraction applied before the rules (documented per unit)
         self.file = file
         self.impl = impl            # regex of the impl header, or None for a free fn
         self.nth = nth
@@ -136,8 +137,11 @@ def extract_fn(repo_dir, fs):
 def annotate_fn(fs, text, negctl=False):
     """Apply rules and splice the contract.  Returns (new_text, info)."""
     info = dict(rules=[], clauses=[], loops=0)
+    pre_applied = []
+    if fs.pre:
+        text, pre_applied = fs.pre(text)
     text, applied = apply_rules(text, fs.body_sub)
-    info['rules'] = applied
+    info['rules'] = list(pre_applied) + applied
     src = Source('<fn %s>' % fs.name, text)
     f = src.find_fn(fs.name)
     open_b, close_b = f['open'], f['end']
